@@ -359,6 +359,11 @@ class Hub:
         self.alias = {}                             # id of altered bytes -> txid of the genuine transaction
         self.reorgs = []                            # (first replaced height, blocks replaced, new branch length)
         self.stats = {}
+        # header history and the header-batch lie (C08 family `forged_batch`)
+        self.honest_headers = set()                 # (height, header) of every block this hub ever mined (also replaced ones)
+        self.header_lie = None                      # armed one-shot lie for `blockchain.block.headers` (arm_header_lie)
+        self.header_lies_served = []                # the lies that were actually handed out
+        self.forged_headers = {}                    # height -> forged header bytes (every lie armed so far)
 
     # ---- wallet address registry ---------------------------------------------------------------------
     def register_address(self, address, chain, index):
@@ -479,6 +484,7 @@ class Hub:
         mined = set(txids)
         self.mempool = [t for t in self.mempool if t not in mined]
         self.blocks.append(blk)
+        self.honest_headers.add((height, blk.header))
         return blk
 
     def reorg(self, rng, k, new_len, n_fill=(0, 3)):
@@ -554,10 +560,62 @@ class Hub:
             blk.header = make_header(1, prev, blk.root, b'\x00' * 32, 1_700_000_000 + 150 * height, 0x207fffff, height)
             prev = dsha256(blk.header)
             self.blocks.append(blk)
+            self.honest_headers.add((height, blk.header))
 
     def chunk_checkpoint(self, start, count=1000):
         """Checkpoint value of headers [start, start+count): display-order hex of the double-SHA256 of the chunk."""
         return dsha256(b''.join(b.header for b in self.blocks[start:start + count]))[::-1].hex()
+
+    # ---- header-batch lie ------------------------------------------------------------------------------
+    def arm_header_lie(self, rng, start, n, k, roots=None, first_prev='random', link_p=1.0):
+        """Prepare ONE Byzantine answer for the next `blockchain.block.headers` request that starts at `start`:
+        `n` headers of which the first `k` (fewer if the chain has fewer above `start`) are this chain's honest
+        headers [start, start+k) and the rest are forged.  A forged header is a structurally valid 112-byte
+        header; the first forged one never links to its predecessor (`first_prev`: 'random' bytes | 'bitflip' of
+        the true hash | 'skip' = hash of the header two below | 'zero'), each later one links to the forged header
+        before it with probability `link_p` (else random bytes).  `roots` {index in the batch: 32-byte Merkle
+        root} lets a forged header carry a root the hub can serve a consistent proof for; other roots are random.
+        -> the lie {'start', 'n', 'k' (effective), 'data', 'forged': {height: header}}; served once, then the hub
+        is honest again."""
+        rb = lambda c: rng.getrandbits(8 * c).to_bytes(c, 'big')  # noqa: E731
+        n = max(1, int(n))
+        honest = [b.header for b in self.blocks[start:start + max(0, min(int(k), n - 1))]] if start >= 0 else []
+        out = list(honest)
+        forged = {}
+        for j in range(len(honest), n):
+            height = start + j
+            if out:
+                true_prev = dsha256(out[-1])
+            elif 0 < start <= len(self.blocks):
+                true_prev = dsha256(self.blocks[start - 1].header)
+            else:
+                true_prev = b'\x00' * 32
+            if j > len(honest) and rng.random() < link_p:
+                prev = true_prev                                   # builds on the forged header before it
+            else:
+                prev = None
+                if j == len(honest):
+                    if first_prev == 'bitflip':
+                        b = bytearray(true_prev)
+                        b[rng.randrange(32)] ^= 1 << rng.randrange(8)
+                        prev = bytes(b)
+                    elif first_prev == 'skip' and len(out) >= 2:
+                        prev = dsha256(out[-2])
+                    elif first_prev == 'skip' and 0 <= height - 2 < len(self.blocks):
+                        prev = dsha256(self.blocks[height - 2].header)
+                    elif first_prev == 'zero':
+                        prev = b'\x00' * 32
+                if prev is None or prev == true_prev:
+                    prev = rb(32)
+                    if prev == true_prev:  # pragma: no cover
+                        prev = bytes(32)
+            root = (roots or {}).get(j) or rb(32)
+            hdr = make_header(1, prev, root, rb(32), 1_700_000_000 + 150 * height, 0x207fffff, rng.getrandbits(32))
+            out.append(hdr)
+            forged[height] = hdr
+        self.forged_headers.update(forged)
+        self.header_lie = {'start': start, 'n': n, 'k': len(honest), 'data': b''.join(out), 'forged': forged}
+        return self.header_lie
 
     # ---- index ---------------------------------------------------------------------------------------
     def _mempool_height(self, tx):
@@ -797,8 +855,15 @@ class Hub:
         if method == 'blockchain.block.headers':
             start, count = args[0], args[1]
             b64 = bool(args[3]) if len(args) > 3 else False
-            count = max(0, min(count, 2016, len(self.blocks) - start))
-            data = b''.join(b.header for b in self.blocks[start:start + count]) if count else b''
+            lie = self.header_lie
+            if lie is not None and lie['start'] == start and count * HEADER_SIZE >= len(lie['data']):
+                self.header_lie = None                      # one answer; honest again afterwards
+                self.header_lies_served.append(lie)
+                data = lie['data']
+                count = len(data) // HEADER_SIZE
+            else:
+                count = max(0, min(count, 2016, len(self.blocks) - start))
+                data = b''.join(b.header for b in self.blocks[start:start + count]) if count else b''
             res = {'count': count, 'max': 2016}
             if b64:
                 c = zlib.compressobj(wbits=-15)
@@ -1094,21 +1159,22 @@ class WalletSync:
         finally:
             self._dec()
 
-    def deliver_header(self, height, delay=0.0):
+    def deliver_header(self, height, delay=0.0, raw=None):
         """Header notification for `height` (the product's own listener is `Ledger.receive_header`).
 
         Python >= 3.11 note: `StreamController.add` wraps coroutine listeners in `asyncio.wait(coros)`, which
         now raises TypeError, so the notification is handed to the listener directly (same coroutine the
         controller would have run)."""
-        blk = self.hub.blocks[height]
+        if raw is None:
+            raw = self.hub.blocks[height].header    # else: a Byzantine announcement (any height, any 112 bytes)
         self._inc()
 
         async def go():
             try:
                 if delay:
                     await asyncio.sleep(delay)
-                await self.ledger.receive_header([{'height': blk.height, 'hex': blk.header.hex()}])
-                self.run.ev('header', blk.height, len(self.headers))
+                await self.ledger.receive_header([{'height': height, 'hex': raw.hex()}])
+                self.run.ev('header', height, len(self.headers))
             finally:
                 self._dec()
         t = self.loop.create_task(go())
